@@ -1078,7 +1078,7 @@ func extractByronTransactionOffsets(
 	cborData []byte,
 	blockArray []cbor.RawMessage,
 ) (*BlockTransactionOffsets, error) {
-	arrayHeaderSize := cborArrayHeaderSize(len(blockArray))
+	arrayHeaderSize := cborArrayHeaderSizeOf(cborData, len(blockArray))
 
 	// blockArray[0] = header, blockArray[1] = body, blockArray[2] = extra
 	headerOffset := arrayHeaderSize
@@ -1108,16 +1108,18 @@ func extractByronTransactionOffsets(
 
 	// Calculate the absolute offset of the tx_payload array within the block.
 	// body starts at bodyOffset, body is an array: [tx_payload, ssc, dlg, upd]
-	bodyArrayHeader := cborArrayHeaderSize(len(bodyParts))
+	bodyArrayHeader := cborArrayHeaderSizeOf(
+		[]byte(blockArray[1]),
+		len(bodyParts),
+	)
 	txPayloadOffset := bodyOffset + bodyArrayHeader // tx_payload is bodyParts[0]
 
-	// The tx_payload itself is an array of transaction pairs
-	txPayloadArrayHeader := cborArrayHeaderSize(len(txPayload))
-	// Check for indefinite-length array
-	txPayloadAbsStart := int(txPayloadOffset)
-	if txPayloadAbsStart < len(cborData) && cborData[txPayloadAbsStart] == 0x9f {
-		txPayloadArrayHeader = 1
-	}
+	// The tx_payload itself is an array of transaction pairs (possibly
+	// indefinite-length)
+	txPayloadArrayHeader := cborArrayHeaderSizeOf(
+		[]byte(bodyParts[0]),
+		len(txPayload),
+	)
 
 	result := &BlockTransactionOffsets{
 		Transactions: make([]TransactionLocation, len(txPayload)),
@@ -1140,12 +1142,11 @@ func extractByronTransactionOffsets(
 		}
 
 		// Each pair is a 2-element CBOR array: [tx_body, tx_witnesses]
-		pairArrayHeader := cborArrayHeaderSize(len(txPair))
-		// Check for indefinite-length pair array
-		pairAbsStart := int(pairPos)
-		if pairAbsStart < len(cborData) && cborData[pairAbsStart] == 0x9f {
-			pairArrayHeader = 1
-		}
+		// (possibly indefinite-length)
+		pairArrayHeader := cborArrayHeaderSizeOf(
+			[]byte(rawPair),
+			len(txPair),
+		)
 
 		bodyStart := pairPos + pairArrayHeader
 		bodyLen := uint32(len(txPair[0])) // #nosec G115 -- Cardano block segments are <<4GiB
@@ -1203,20 +1204,17 @@ func extractByronOutputOffsets(
 
 	// Calculate offset to the outputs array within the block.
 	// Skip: body array header + inputs element
-	bodyArrayHeader := cborArrayHeaderSize(len(bodyParts))
-	// Check for indefinite-length body array
-	if len(bodyData) > 0 && bodyData[0] == 0x9f {
-		bodyArrayHeader = 1
-	}
+	// (the body array may be indefinite-length)
+	bodyArrayHeader := cborArrayHeaderSizeOf(bodyData, len(bodyParts))
 	inputsLen := uint32(len(bodyParts[0])) // #nosec G115
 	outputsAbsOffset := bodyOffset + uint32(bodyArrayHeader) + inputsLen
 
 	// Determine outputs array header size
-	outputsArrayHeader := uint32(cborArrayHeaderSize(len(outputsRaw)))
-	outputsArrayStart := int(outputsAbsOffset - bodyOffset)
-	if outputsArrayStart >= 0 && outputsArrayStart < len(bodyData) && bodyData[outputsArrayStart] == 0x9f {
-		outputsArrayHeader = 1 // indefinite-length
-	}
+	// (the outputs array may be indefinite-length)
+	outputsArrayHeader := cborArrayHeaderSizeOf(
+		[]byte(bodyParts[1]),
+		len(outputsRaw),
+	)
 
 	outputPos := outputsAbsOffset + outputsArrayHeader
 	loc.Outputs = make([]ByteRange, len(outputsRaw))
@@ -1549,7 +1547,7 @@ func ExtractTransactionOffsets(cborData []byte) (*BlockTransactionOffsets, error
 	// Shelley+ block layout: [header, tx_bodies[], witnesses[], metadata_map, ...]
 	// Calculate header size by finding where blockArray[0] starts
 	// CBOR array header is 1 byte for arrays < 24 elements, more for larger
-	arrayHeaderSize := cborArrayHeaderSize(len(blockArray))
+	arrayHeaderSize := cborArrayHeaderSizeOf(cborData, len(blockArray))
 
 	// blockArray[0] is the header, blockArray[1] is tx bodies, blockArray[2] is witnesses
 	// blockArray[3] is metadata (if present)
@@ -1605,13 +1603,12 @@ func ExtractTransactionOffsets(cborData []byte) (*BlockTransactionOffsets, error
 	}
 
 	// Calculate body offsets within the tx bodies array.
-	// Check for indefinite-length array (0x9f) which uses 1-byte header.
-	var bodiesArrayHeader uint32
-	if int(txBodiesOffset) < len(cborData) && cborData[txBodiesOffset] == 0x9f {
-		bodiesArrayHeader = 1
-	} else {
-		bodiesArrayHeader = cborArrayHeaderSize(len(txBodiesRaw))
-	}
+	// The header size is read from the data: the array may be
+	// indefinite-length (0x9f) or use a non-minimal length encoding.
+	bodiesArrayHeader := cborArrayHeaderSizeOf(
+		[]byte(blockArray[1]),
+		len(txBodiesRaw),
+	)
 	bodyPos := txBodiesOffset + bodiesArrayHeader
 	for i, rawBody := range txBodiesRaw {
 		bodyLen := uint32(len(rawBody)) // #nosec G115 -- Cardano block segments are <<4GiB
@@ -1627,13 +1624,12 @@ func ExtractTransactionOffsets(cborData []byte) (*BlockTransactionOffsets, error
 	}
 
 	// Calculate witness offsets within the witnesses array.
-	// Check for indefinite-length array (0x9f) which uses 1-byte header.
-	var witnessArrayHeader uint32
-	if int(witnessesOffset) < len(cborData) && cborData[witnessesOffset] == 0x9f {
-		witnessArrayHeader = 1
-	} else {
-		witnessArrayHeader = cborArrayHeaderSize(len(witnessesRaw))
-	}
+	// The header size is read from the data: the array may be
+	// indefinite-length (0x9f) or use a non-minimal length encoding.
+	witnessArrayHeader := cborArrayHeaderSizeOf(
+		[]byte(blockArray[2]),
+		len(witnessesRaw),
+	)
 	witnessPos := witnessesOffset + witnessArrayHeader
 	for i, rawWitness := range witnessesRaw {
 		if i < len(result.Transactions) {
@@ -1736,15 +1732,16 @@ func extractOutputOffsets(
 			// #nosec G115 -- valueStart is position within a Cardano tx body, well under 4GiB
 			outputsArrayOffset := bodyOffset + headerSize + uint32(valueStart)
 
-			// Determine actual array header size from the data.
-			// For indefinite-length arrays (0x9f), header is 1 byte.
-			// For definite-length arrays, use cborArrayHeaderSize.
+			// Determine actual array header size from the data: the array
+			// may be indefinite-length (0x9f, 1 byte) or use a non-minimal
+			// length encoding.
 			arrayStartIdx := int(headerSize) + valueStart
-			var outputsArrayHeader uint32
-			if arrayStartIdx < len(bodyData) && bodyData[arrayStartIdx] == 0x9f {
-				outputsArrayHeader = 1 // indefinite-length array
-			} else {
-				outputsArrayHeader = uint32(cborArrayHeaderSize(len(outputsRaw)))
+			outputsArrayHeader := cborArrayHeaderSize(len(outputsRaw))
+			if arrayStartIdx < len(bodyData) {
+				outputsArrayHeader = cborArrayHeaderSizeOf(
+					bodyData[arrayStartIdx:],
+					len(outputsRaw),
+				)
 			}
 
 			// Track position within outputs array
@@ -2268,7 +2265,19 @@ func cborMapInfo(data []byte) (int, uint32, bool) {
 	}
 }
 
-// cborArrayHeaderSize returns the CBOR header size in bytes for an array of given length.
+// cborArrayHeaderSizeOf returns the size in bytes of the array header that data
+// actually starts with. An encoder is free to use a longer than necessary
+// length encoding or an indefinite-length array, so the size cannot be derived
+// from the number of elements. The minimal header size for length is only used
+// as a fallback when data does not start with an array header.
+func cborArrayHeaderSizeOf(data []byte, length int) uint32 {
+	if count, headerSize, _ := cborArrayInfo(data); count >= 0 {
+		return headerSize
+	}
+	return cborArrayHeaderSize(length)
+}
+
+// cborArrayHeaderSize returns the minimal CBOR header size in bytes for an array of given length.
 func cborArrayHeaderSize(length int) uint32 {
 	if length < 24 {
 		return 1 // 0x80 + length
